@@ -8,7 +8,12 @@ require (
 )
 
 require (
+	github.com/bwmarrin/snowflake v0.3.0 // indirect
+	github.com/cespare/xxhash v1.1.0 // indirect
 	github.com/edsrzf/mmap-go v1.2.0 // indirect
+	github.com/gofrs/flock v0.12.1 // indirect
+	github.com/google/btree v1.1.3 // indirect
+	github.com/huandu/skiplist v1.2.1 // indirect
 	github.com/valyala/bytebufferpool v1.0.0 // indirect
 	golang.org/x/mod v0.22.0 // indirect
 	golang.org/x/sync v0.10.0 // indirect
